@@ -197,6 +197,9 @@ func smtString(s string) string {
 }
 
 func sanitize(s string) string {
+	if s == "_" {
+		return "blank_"
+	}
 	var sb strings.Builder
 	for _, r := range s {
 		switch {
